@@ -697,6 +697,9 @@ func (s *scn) flush() *blockResult {
 					}
 				}
 			}
+			if s.kvAddr != nil {
+				ar.contract, ar.keys = s.kvAddr, []string{"rec0", "rec1", "rec2"}
+			}
 			br, err = r.executeWithApiReader(ev, 12*time.Second, ar)
 			s.res.Add("fault_api_reader_landings", int64(len(ar.landed)))
 			for _, l := range ar.landed {
